@@ -1865,6 +1865,14 @@ class DocutilsRenderer(RendererProtocol):
 
         # a nested directive has moved the line that docutils gives to unstamped nodes
         self.document.current_line = position
+        # docutils only does that when the parent is already attached to the document,
+        # which the node of an enclosing directive is not: stamp the output here
+        for node in result:
+            if isinstance(node, nodes.Element):
+                if node.line is None:
+                    node.line = position
+                if node.source is None:
+                    node.source = self.document["source"]
 
         assert isinstance(
             result, list
